@@ -3,7 +3,7 @@ import vpl, os, re, subprocess, tempfile, shutil, binascii
 from concurrent.futures import ThreadPoolExecutor
 
 LEVEL = "proof"
-LIBS = ["PgpCodecLemmas.vo", "PgpArmorLemmas.vo"]
+LIBS = ["PgpCodecLemmas.vo", "PgpArmorLemmas.vo", "PgpPacketLemmas.vo"]
 PARTS = ["r64", "crc", "armor", "len", "mpi", "s2kcnt", "s2k", "fpr", "pkt"]
 
 def s2k_slices(tier):
